@@ -5,7 +5,7 @@ import Infretis.Lemmas.RepexC04Rows
 `treatOutput` = per-ensemble bookkeeping (`perEns`: new paths enter `traj_data` with a zero
 `frac`) → `recordFrac` → `writeRows` on ACC → `sort_trajstate` (only swaps) → counters.
 -/
-namespace Infretis.Repex
+namespace Infretis.Repex.Frac
 open Infretis.Perm
 
 /-- the fields the weight accounting reads that most operations leave alone -/
@@ -218,6 +218,11 @@ theorem treatOutput_ok {s s' : St} {job : Job} {status : Status} {newW : List (L
       s' = { s4 with trajNum := tn, cworker := job.pin } := by
   unfold treatOutput at h
   simp only [] at h
+  have hws : (if status = Status.acc then newW else job.picked.map (fun _ => []))
+      = jobWs job status newW := rfl
+  rw [hws] at h
+  unfold recState
+  generalize jobWs job status newW = ws at h ⊢
   split at h
   · exact absurd h (by simp)
   rename_i hlen
@@ -273,7 +278,8 @@ theorem fracWF_append_zero {s : St} (fw : FracWF s) (k : Nat) :
     · have := (List.mem_range'_1.mp h).2; omega
 
 /-- **Conservation across one `treat_output`.**  With `s1` the recording state: if `s1` is
-    slot-well-formed and its idle block matchable, then for every column the total of
+    slot-well-formed then the fraction table stays well formed, and if moreover its idle block is
+    matchable, then for every column the total of
     (data rows + fraction table) grows by exactly one if the column is idle once the job's slots
     are unlocked (these are also the final locks), by zero otherwise; and the fraction table stays
     well formed. -/
@@ -284,10 +290,10 @@ theorem treatOutput_total {s s' : St} {job : Job} {status : Status} {newW : List
       s1.locks = unlockAll s.locks (job.picked.map (fun p => (p.ens + 1).toNat)) ∧
       s'.locks = s1.locks ∧ s'.n = s.n ∧ s'.trajNum = tn ∧
       tn = s.trajNum + (if status = .acc then job.picked.length else 0) ∧
-      (SlotWF s1 → Matchable s1 →
+      (SlotWF s1 →
         FracWF s' ∧
-        ∀ c, rowsTotal s'.rows c + colTotal s'.frac c
-          = rowsTotal s.rows c + colTotal s.frac c + (if s'.locks[c]? = some false then 1 else 0)) := by
+        (Matchable s1 → ∀ c, rowsTotal s'.rows c + colTotal s'.frac c
+          = rowsTotal s.rows c + colTotal s.frac c + (if s'.locks[c]? = some false then 1 else 0))) := by
   obtain ⟨s1, tn, s2, s3, s4, hper, hlen, hrec, hwr, hsort, rfl⟩ := treatOutput_ok h
   have hper' := hper
   unfold recState at hper'
@@ -296,8 +302,12 @@ theorem treatOutput_total {s s' : St} {job : Job} {status : Status} {newW : List
     simp [List.length_zip, hlen]
   have hfst : (job.picked.zip (jobWs job status newW)).map (fun pw => (pw.1.ens + 1).toNat)
       = job.picked.map (fun p => (p.ens + 1).toNat) := by
-    rw [← List.map_fst_zip (l₁ := job.picked) (l₂ := jobWs job status newW) (by omega), List.map_map]
-    rfl
+    have hm : (job.picked.zip (jobWs job status newW)).map Prod.fst = job.picked :=
+      List.map_fst_zip (by omega)
+    calc (job.picked.zip (jobWs job status newW)).map (fun pw => (pw.1.ens + 1).toNat)
+        = ((job.picked.zip (jobWs job status newW)).map Prod.fst).map (fun p => (p.ens + 1).toNat) := by
+          rw [List.map_map]; rfl
+      _ = _ := by rw [hm]
   rw [hzl] at p4 p5 p6
   rw [hfst] at p7
   obtain ⟨hd4, hl4⟩ := sortTrajstate_dataEq fuel hsort
@@ -316,7 +326,7 @@ theorem treatOutput_total {s s' : St} {job : Job} {status : Status} {newW : List
   have hlocks : s4.locks = s1.locks := by rw [hl4, hl3.1, hl2.1]
   have hn : s4.n = s.n := by rw [hd4.n, hl3.2, hl2.2, p2]
   refine ⟨s1, tn, hper, p7, hlocks, hn, rfl, p4, ?_⟩
-  intro wf hM
+  intro wf
   -- the table at recording time
   obtain ⟨k1, k2, k3⟩ := fracWF_append_zero fw (if status = .acc then job.picked.length else 0)
   rw [← p5] at k1 k2 k3
@@ -327,7 +337,6 @@ theorem treatOutput_total {s s' : St} {job : Job} {status : Status} {newW : List
     rw [p5, colTotal_append, colTotal_zeroFracs, add_zero]
   -- recording
   obtain ⟨_, r2, r3, _, _, _⟩ := recordFrac_spec wf k1 k2 hrec
-  have hcol2 := recordFrac_col wf hM k1 k2 hrec
   have hrows2 : s2.rows = s1.rows := by rw [hs2]
   have k1' : (s2.frac.map Prod.fst).Nodup := by rw [r2]; exact k1
   have k3' : ∀ x ∈ s2.frac.map Prod.fst, x < tn := by rw [r2]; exact k3
@@ -364,9 +373,10 @@ theorem treatOutput_total {s s' : St} {job : Job} {status : Status} {newW : List
       change x < tn
       rw [hd4.frac] at hx
       exact a3 x hx
-  · intro c
+  · intro hM c
+    have hcol2 := recordFrac_col wf hM k1 k2 hrec
     change rowsTotal s4.rows c + colTotal s4.frac c = _ + (if s4.locks[c]? = some false then 1 else 0)
     rw [hd4.rows, hd4.frac, a4 c, hrows2, p1, hcol2 c, hcol1 c, hlocks]
     ring
 
-end Infretis.Repex
+end Infretis.Repex.Frac
